@@ -27,6 +27,7 @@ Wrap(k, r, L) ==
     [] k = 8 -> [n |-> "for", its |-> <<It("i", Lst(<<r>>))>>, body |-> Bin("add", Nm("i"), I(1))]
     [] k = 9 -> [n |-> "filter", a |-> Lst(<<I(0), r>>), f |-> I(2)]                     \* [1 instance of tX, r][2]: after a reference to a type
     [] k = 20 -> [n |-> "filter", a |-> Lst(<<I(0), r>>), f |-> I(2)]                    \* [1 instance of list<tX>, r][2]
+    [] k \in 22..25 -> [n |-> "filter", a |-> Lst(<<I(0), r>>), f |-> I(2)]               \* [<a construct declaring a bound name locally>, r][2]
     [] k = 21 -> r                                                                        \* if 1 instance of tX then (r) else (r)
     [] k = 16 -> [n |-> "path", a |-> [n |-> "ctx", ents |-> <<[key |-> L, v |-> I(7)], [key |-> "r", v |-> r]>>], id |-> "r"]   \* the key written as a string literal
     [] k = 10 -> [n |-> "path", a |-> [n |-> "ctx", ents |-> <<[key |-> L, v |-> I(7)], [key |-> "r", v |-> r]>>], id |-> "r"]
